@@ -18,8 +18,8 @@ LEVEL = "exploration"
 RULE = (
     "Hypothesis-generated inheritance chains t0<-..<-tk (k<=3 quick, <=4 thorough; 1-5 block names; nested blocks; "
     "super()/super.super()/self.x(); scoped and unscoped blocks inside loops; required blocks; static / conditional-"
-    "expression / variable / Template-object / if-wrapped extends; stray text, outputs, loops, includes, assignments and "
-    "macros at the top level of children; blocks inside if/for/with/set-blocks of children), every template rendered as "
+    "expression / variable / Template-object / if-wrapped extends; stray text, outputs, loops, includes, call blocks, filter "
+    "blocks, assignments and macros at the top level of children; blocks inside if/for/with/set-blocks of children), every template rendered as "
     "an entry in sync and async mode and compared with the reference resolver. Non-trivial = a super() call was executed "
     "on a block overridden at >=2 levels, or a scoped block saw local variables, or stray child content was suppressed / "
     "a stray assignment executed; distinct = distinct serialised case."
@@ -103,6 +103,8 @@ def check_case(case):
         or "stray_output_suppressed" in events
         or "stray_assignment_executed" in events
         or "stray_include_suppressed" in events
+        or "stray_callblock_suppressed" in events
+        or "stray_filterblock_suppressed" in events
     )
     labels = ["depth_%d" % depth] + sorted(events)
     for r in expected.values():
@@ -132,7 +134,7 @@ FLOORS = {
     "super1": 0.10, "super2": 0.02, "selfcall": 0.03, "scoped_with_locals": 0.05, "required_overridden": 0.02,
     "exp_TemplateRuntimeError": 0.02, "stray_output_suppressed": 0.10, "stray_assignment_executed": 0.10,
     "extends_cond": 0.03, "extends_n": 0.05, "unscoped_in_local_scope": 0.03, "stray_include_suppressed": 0.02,
-    "child_block_in_local_scope": 0.01,
+    "child_block_in_local_scope": 0.01, "stray_callblock_suppressed": 0.02, "stray_filterblock_suppressed": 0.02,
 }
 
 
